@@ -32,6 +32,7 @@ def check(ctx, cfg):
     r2_r3(ctx, cfg)
     r4(ctx, cfg)
     r5(ctx, cfg)
+    r6(ctx, cfg)
 
 
 def r5(ctx, cfg):
@@ -297,3 +298,31 @@ def r4(ctx, cfg):
     ups = [u for u in stakes.entry_updates(P, F, f) if u.site[0] == f.key]
     ok = len(ups) == 1 and q.has_cond(q.dominating_conditions(P, f, ups[0].site[1]), "is_zero", pol=False)
     ctx.ob(R, key, "partial-slash-updates-in-place", ok, "the partial-slash branch does not update stakes under !stake.is_zero()", fn=f, sample="else { STAKES.update(..) }")
+
+
+def r6(ctx, cfg):
+    """"to (1 - p) times its value rounded down to whole tokens ... never increases any amount": a slashed delegation is a fractional
+    Decimal in STAKES; what a query reports of it is the floor.  Every conversion of a stored stake to whole tokens in
+    staking.rs is `Uint128::new(1).mul_floor(stake)` (or `stake.to_uint_floor()`): get_stake and the Delegation query."""
+    F, P = cfg.facts, cfg.prov
+    R = "C16.R6"
+    n = 0
+    for f in F.user_fns():
+        if f.file != "src/staking.rs":
+            continue
+        for b, t in f.calls():
+            nm = t["callee"]["name"]
+            if nm not in ("mul_floor", "mul_ceil", "to_uint_floor", "to_uint_ceil") or not t["args"]:
+                continue
+            a = P.call_args(f, t, b)
+            val = a[-1]
+            is_stake = contains(val, lambda x: x[0] == "field" and x[2] == "stake" and contains(x[1], lambda y: y == ("item", "staking::STAKES")))
+            if not is_stake or contains(val, lambda x: x[0] == "field" and x[2] == "rewards"):
+                continue
+            n += 1
+            ok = nm == "to_uint_floor" or (nm == "mul_floor" and len(a) == 2 and peel(a[0])[0] == "call" and peel(a[0])[1] == "cosmwasm_std::Uint128::new" and
+                                           peel(peel(a[0])[2][0]) == ("const", "int", 1))
+            ctx.ob(R, f.key, "stake-shown-rounded-down@%d" % t["line"] if False else "stake-shown-rounded-down#%d" % n, ok,
+                   "a stored stake is converted to whole tokens by %s(%s, ..) at line %s" % (nm, fmt(a[0])[:40], t["line"]), fn=f, line=t["line"],
+                   sample="Uint128::new(1).mul_floor(shares.stake)")
+    ctx.floor(R, "stake-to-token conversions", n, 2)
